@@ -12,7 +12,13 @@ from typing import Any, Dict, Iterator, List, Optional, Tuple
 from icv import tlc
 from icv.result import CheckResult, MachineryError
 
-LEAVES = [("int", -1), ("int", 0), ("int", 1), ("int", 2), ("none", 0), ("true", 0), ("false", 0), ("name", 1), ("name", 2)]
+LEAVES = [("int", -1), ("int", 0), ("int", 1), ("int", 2), ("none", 0), ("true", 0), ("false", 0), ("name", 1), ("name", 2),
+          ("name", 3), ("name", 4)]
+# names: 1 = x, 2 = y (arguments), 3 = c (closure variable of the enclosing function), 4 = g (module global).
+# The generated module ALSO has globals called x, y and c with other values: arguments shadow the closure, the
+# closure shadows the globals (Python's rule; the re-evaluator must look names up in the same order).
+C_VALUE = ("int", 5, [])
+G_VALUE = ("list", 0, [7])
 UNARY = ["not", "neg", "ident", "len", "first", "attr", "isnone"]
 BINARY = ["add", "floordiv", "and", "or", "lt", "eq", "in"]
 TERNARY = ["ifexp", "lt2", "and3", "or3"]
@@ -132,7 +138,7 @@ def render(node: dict, rec: bool = False) -> str:
     elif k == "false":
         s = "False"
     elif k == "name":
-        s = {1: "x", 2: "y"}[node["a"]]
+        s = {1: "x", 2: "y", 3: "c", 4: "g"}[node["a"]]
     elif k == "not":
         s = "not " + sub(0)
     elif k == "neg":
@@ -218,7 +224,7 @@ def make_cases(exprs: List[list], rng: random.Random, envs_per_expr: int = 0) ->
         if envs_per_expr and len(es) > envs_per_expr:
             es = rng.sample(es, envs_per_expr)
         for x, y in es:
-            cases.append({"cid": len(cases) + 1, "expr": e, "env": [V(*x), V(*y)]})
+            cases.append({"cid": len(cases) + 1, "expr": e, "env": [V(*x), V(*y), V(*C_VALUE), V(*G_VALUE)]})
     return cases
 
 
@@ -238,7 +244,7 @@ class ExprModule:
         self.text = {}  # type: Dict[str, str]
         self.ident_calls = []  # type: List[Any]
         self.rec_log = []  # type: List[Tuple[int, Any]]
-        lines = ["import icontract", ""]
+        lines = ["import icontract", "", "x = 'global-x'", "y = 'global-y'", "c = 'global-c'", "g = [7]", ""]
         for key, e in exprs.items():
             tree, _ = parse(e)
             self.tree[key] = tree
@@ -246,11 +252,12 @@ class ExprModule:
             self.text[key] = txt
             n = len(self.fn) + 1
             self.fn[key] = "f{}".format(n)
-            lines.append("@icontract.require(lambda x, y: {})".format(txt))
-            lines.append("def f{}(x, y):".format(n))
-            lines.append("    return 1")
-            lines.append("n{} = lambda x, y: {}".format(n, txt))
-            lines.append("r{} = lambda x, y: {}".format(n, render(tree, rec=True)))
+            lines.append("def make{}(c):".format(n))
+            lines.append("    @icontract.require(lambda x, y: {})".format(txt))
+            lines.append("    def f(x, y):")
+            lines.append("        return 1")
+            lines.append("    return f, (lambda x, y: {}), (lambda x, y: {})".format(txt, render(tree, rec=True)))
+            lines.append("f{0}, n{0}, r{0} = make{0}(5)".format(n))
             lines.append("")
         src = "\n".join(lines) + "\n"
         self.source = src
@@ -442,7 +449,7 @@ def _viol(res: CheckResult, prop_clauses: Dict[str, set], clause: str, what: str
 
 
 # ------------------------------------------------------------------------------------------------------
-SMALL_LEAVES = [("name", 1), ("name", 2), ("int", 0), ("int", 2), ("none", 0)]
+SMALL_LEAVES = [("name", 1), ("name", 2), ("int", 0), ("int", 2), ("none", 0), ("name", 3), ("name", 4)]
 
 
 def _nd(k: str, a: int = 0) -> dict:
@@ -548,6 +555,8 @@ LAYOUTS = {
     "ensure": "@icontract.ensure(lambda x, y, result: {E})\ndef {F}(x, y):\n    return 1\n",
     "ensure-multiline": "@icontract.ensure(\n    lambda x, y, result:\n    {E},\n    'a description')\ndef {F}(x, y):\n    return 1\n",
     "dbc-method": "class D{F}(icontract.DBC):\n    @icontract.require(lambda x, y: {E})\n    def m(self, x, y):\n        return 1\ndef {F}(x, y):\n    return D{F}().m(x, y)\n",
+    "continuation-identifiers": "@icontract.require(\n    lambda x, y: {E},\n    description=\n    definitely,\n    error=\n    classy_error)\ndef {F}(x, y):\n    return 1\n",
+    "continuation-identifiers-2": "@icontract.require(\n    error=\n    classy_error, condition=lambda x, y:\n    {E}, description=\n    definitely)\ndef {F}(x, y):\n    return 1\n",
     "blank-lines-and-tabs": "@icontract.require(\n\n\tlambda x, y: {E}\n\n)\ndef {F}(x, y):\n    return 1\n",
 }
 
@@ -585,7 +594,8 @@ class LayoutModule:
         my_repr.maxlist = 50
         self.MyError = MyError
         self.ns = {"ident": self._ident, "foreign": foreign, "run": run, "MyError": MyError, "MY_REPR": my_repr,
-                   "__name__": "icv_layout"}
+                   "__name__": "icv_layout", "definitely": "a description", "classy_error": MyError,
+                   "default_of": (lambda v: v), "c": 5, "g": [7]}
         import warnings
         with warnings.catch_warnings():
             warnings.simplefilter("ignore")
@@ -632,7 +642,8 @@ def check_layouts(res: CheckResult, prop_clauses: Dict[str, set], cases: List[di
                     _viol(res, prop_clauses, "msg.replaced_by_other_exception",
                           "layout {}: `{}` x={!r} y={!r}: no error raised".format(layout, text, xv, yv), c)
                     continue
-                want_cls = mod.MyError if layout in ("error-class", "error-first") else ic.ViolationError
+                want_cls = mod.MyError if layout in ("error-class", "error-first", "continuation-identifiers",
+                                                    "continuation-identifiers-2") else ic.ViolationError
                 if type(got) is not want_cls:
                     _viol(res, prop_clauses, "msg.replaced_by_other_exception",
                           "layout {}: error class {} instead of {}".format(layout, type(got).__name__, want_cls.__name__), c)
@@ -643,7 +654,8 @@ def check_layouts(res: CheckResult, prop_clauses: Dict[str, set], cases: List[di
                     _viol(res, prop_clauses, "msg.header", "layout {}: no location line: {!r}".format(layout, msg[:200]), c)
                     continue
                 body = "\n".join(lines[1:])
-                if layout in ("description-positional", "description-first", "error-first", "ensure-multiline"):
+                if layout in ("description-positional", "description-first", "error-first", "ensure-multiline",
+                              "continuation-identifiers", "continuation-identifiers-2"):
                     if not body.startswith("a description: "):
                         _viol(res, prop_clauses, "msg.header", "layout {}: description missing: {!r}".format(layout, body[:200]), c)
                         continue
